@@ -153,6 +153,24 @@ def peek(x):
     return x
 
 
+def backing_file(t):
+    """path of the file whose mapping contains the tensor's storage (memory-mapped load), None for ordinary memory"""
+    if not t.nelement():
+        return None
+    ptr = t.untyped_storage().data_ptr()
+    try:
+        with open('/proc/self/maps') as f:
+            for line in f:
+                parts = line.split(None, 5)
+                lo, hi = (int(x, 16) for x in parts[0].split('-'))
+                if lo <= ptr < hi:
+                    path = parts[5].strip() if len(parts) > 5 else ''
+                    return path if path.startswith('/') and parts[4] != '0' else None
+    except OSError:
+        return None
+    return None
+
+
 def blocks_of(cfg, stage):
     """[Column, Tanh, Row] blocks of a pipeline stage: `stage_blocks` (uneven split of the layers) or `blocks` everywhere"""
     sb = getattr(cfg, 'stage_blocks', None)
@@ -337,6 +355,10 @@ def run_real(cfg, sched_seed=0):
                                             None if l._g_factor is None else l._g_factor.clone() if isinstance(l._g_factor, torch.Tensor) else 'future',
                                             l._qa is not None and l._qg is not None))
                     rec['steps'] = p.steps
+                    # restored factors own their memory: a factor that is a memory-mapped view of its checkpoint file changes
+                    # (or faults) when a later save rewrites that file
+                    rec['file_backed'] = [n for (n, l) in p._layers.values() for t_ in (l._a_factor, l._g_factor)
+                                          if isinstance(t_, torch.Tensor) and backing_file(t_)]
             out['ops'].append(rec)
         out['trace'] = list(w.trace[rank][out['trace_start']:])
         return out
